@@ -1,125 +1,293 @@
 ------------------------------- MODULE Attrs -------------------------------
 (***************************************************************************)
-(* Attributes of every attributable object (mfsd.c/attr.c, mfgr.c,         *)
-(* vattr.c): per object an ORDERED list of <<name, type, count, values>>.  *)
-(* Re-setting an existing name replaces the value in place (index and all  *)
-(* other attributes untouched) -- or, where the interface forbids changing *)
-(* type or count, fails and leaves the old value:                          *)
+(* Attributes and the predefined metadata built on them (property C10):    *)
+(* mfsd.c / attr.c / cdf.c / dim.c, mfgr.c, vattr.c.                       *)
+(*                                                                         *)
+(* Every attributable object (SD file, dataset, dimension; GR file, raster *)
+(* image; Vdata, Vdata field; Vgroup) carries an ORDERED list of           *)
+(* <<name, type, count, value>>.  Re-setting an existing name replaces the *)
+(* value in place (index and every other attribute untouched) -- or, where *)
+(* the interface forbids changing type or count, fails and leaves the old  *)
+(* value:                                                                  *)
 (*     SD (file, dataset, dimension) : any change allowed                  *)
 (*     GR (file, image)              : same type required, count may change*)
 (*     Vdata, Vdata field, Vgroup    : same type and same count required   *)
-(* Predefined SD metadata (valid range, fill value, data strings,          *)
+(* A value is named by a small seed k: the driver expands (type, count, k) *)
+(* with a fixed formula and recovers k from what the library returns, so   *)
+(* counts up to the 65535-byte limit cost the model nothing.               *)
+(*                                                                         *)
+(* SD dimensions: a dataset's dimension SLOT refers to a dimension         *)
+(* (initially its own); naming a slot like an existing dimension of the    *)
+(* same size makes the slot SHARE that dimension (different size: refused).*)
+(* Dimension attributes, strings and scales live on the dimension's        *)
+(* coordinate variable, which is created by the first setter and is listed *)
+(* among the file's datasets from then on.                                 *)
+(*                                                                         *)
+(* Predefined dataset metadata (valid range, fill value, data strings,     *)
 (* calibration) are attributes with fixed names, visible through both      *)
-(* their own getters and the attribute calls.                              *)
+(* their own getters and the generic attribute calls.                      *)
 (***************************************************************************)
 EXTENDS Naturals, Integers, Sequences, FiniteSets, TLC
 
-CONSTANTS Objs,        \* subset of {"sd","sds1","sds2","dim","gr","ri","vd","vdf","vg"}
-          Names, Types, Counts, MaxAttrs, DataMod, MaxOps, KeepHist
+CONSTANTS Objs,        \* subset of {"sd","s1","s2","d10","d20","d21","gr","ri","vd","vdf0","vdf1","vg"}
+          Names, Types, Counts, DimNames, ScaleTypes,
+          MaxAttrs, MaxAdd, DataMod, MaxOps, KeepHist
 FAIL == -1
+DimSlots == {"d10", "d20", "d21"}
+DimSize  == [d10 |-> 3, d20 |-> 3, d21 |-> 2]
+\* a dimension that was never named has a name of the library's choosing ("fakeDim<n>", renumbered when
+\* the file is written): "?..." stands for any such name
+DefName  == [d10 |-> "?d10", d20 |-> "?d20", d21 |-> "?d21"]
+Sds      == {"s1", "s2"}
+SizeOf   == [i8 |-> 1, u8 |-> 1, c8 |-> 1, uc8 |-> 1, i16 |-> 2, u16 |-> 2, i32 |-> 4, u32 |-> 4, f32 |-> 4, f64 |-> 8]
+NoScale  == [type |-> "none", k |-> 0]
 
-VARIABLES st, attrs, wc, out, hist
-vars == <<st, attrs, wc, out, hist>>
-view == <<st, attrs, wc % DataMod>>
+VARIABLES st,      \* "init" | "rw" | "ro"
+          attrs,   \* object (dimension: its identity) -> sequence of [name, type, count, k]
+          dimOf,   \* dimension slot -> dimension identity
+          dname,   \* dimension identity -> name
+          scale,   \* dimension identity -> [type, k] | NoScale
+          svars,   \* the file's datasets in index order: [name, coord]
+          nadd,    \* datasets added after setup
+          wc, out, hist
+vars == <<st, attrs, dimOf, dname, scale, svars, nadd, wc, out, hist>>
+view == <<st, attrs, dimOf, dname, scale, svars, nadd, wc % DataMod>>
 
 Log(op, args, o) == /\ out' = o
                     /\ hist' = IF KeepHist THEN Append(hist, [op |-> op, args |-> args, out |-> o])
                                            ELSE <<[op |-> op, args |-> args, out |-> o]>>
 
-Iface(o) == IF o \in {"sd", "sds1", "sds2", "dim"} THEN "SD" ELSE IF o \in {"gr", "ri"} THEN "GR" ELSE "V"
-ValK(k, n) == ((k * 13 + n * 7) % 100) + 1
-Vals(k, c) == [n \in 1..c |-> ValK(k, n)]
-IndexOf(o, nm) == IF \E i \in 1..Len(attrs[o]) : attrs[o][i].name = nm
-                  THEN CHOOSE i \in 1..Len(attrs[o]) : attrs[o][i].name = nm ELSE 0
+Iface(o) == IF o \in {"sd", "s1", "s2"} \cup DimSlots THEN "SD" ELSE IF o \in {"gr", "ri"} THEN "GR" ELSE "V"
+\* the attribute list an object name designates
+Key(o)   == IF o \in DimSlots THEN dimOf[o] ELSE o
+AttrObjs == (Objs \ DimSlots) \cup DimSlots
+IndexIn(as, nm) == IF \E i \in 1..Len(as) : as[i].name = nm THEN CHOOSE i \in 1..Len(as) : as[i].name = nm ELSE 0
+IndexOf(o, nm)  == IndexIn(attrs[Key(o)], nm)
+TooBig(ty, c)   == c > 65535 \/ c * SizeOf[ty] > 65535
+HasCv(d)        == \E i \in 1..Len(svars) : svars[i].coord /\ svars[i].name = dname[d]
+\* the coordinate variable of dimension identity d comes into being
+WithCv(d)       == IF HasCv(d) THEN svars ELSE Append(svars, [name |-> dname[d], coord |-> TRUE])
+TouchCv(o)      == IF o \in DimSlots THEN svars' = WithCv(dimOf[o]) ELSE UNCHANGED svars
 
-Init == st = "init" /\ attrs = [o \in Objs |-> <<>>] /\ wc = 0 /\ out = [ret |-> 0] /\ hist = <<>>
+Init == /\ st = "init" /\ attrs = [o \in AttrObjs |-> <<>>] /\ dimOf = [d \in DimSlots |-> d]
+        /\ dname = DefName /\ scale = [d \in DimSlots |-> NoScale]
+        /\ svars = <<[name |-> "s1", coord |-> FALSE], [name |-> "s2", coord |-> FALSE]>>
+        /\ nadd = 0 /\ wc = 0 /\ out = [ret |-> 0] /\ hist = <<>>
 
-\* create the file with one object of every kind
-Setup == /\ st = "init" /\ st' = "open"
-         /\ Log("Setup", [objs |-> Objs], [ret |-> 0])
-         /\ UNCHANGED <<attrs, wc>>
+\* create the file with one object of every kind: datasets s1[3], s2[3][2] (int16), one image, one Vdata
+\* with two fields, one Vgroup
+Setup == /\ st = "init" /\ st' = "rw"
+         /\ Log("Setup", [a |-> 0], [ret |-> 0])
+         /\ UNCHANGED <<attrs, dimOf, dname, scale, svars, nadd, wc>>
 
 \* SDsetattr / GRsetattr / VSsetattr / Vsetattr
 MayReplace(o, old, ty, c) == CASE Iface(o) = "SD" -> TRUE
                                [] Iface(o) = "GR" -> old.type = ty
                                [] OTHER -> old.type = ty /\ old.count = c
 Set(o, nm, ty, c, k) ==
-    /\ st = "open" /\ o \in Objs
-    /\ LET i == IndexOf(o, nm)  new == [name |-> nm, type |-> ty, count |-> c, vals |-> Vals(k, c)] IN
-       IF i = 0
-       THEN /\ Len(attrs[o]) < MaxAttrs
-            /\ attrs' = [attrs EXCEPT ![o] = Append(@, new)]
-            /\ Log("Set", [obj |-> o, name |-> nm, type |-> ty, vals |-> Vals(k, c)], [ret |-> 0])
-       ELSE IF MayReplace(o, attrs[o][i], ty, c)
-            THEN /\ attrs' = [attrs EXCEPT ![o][i] = new]
-                 /\ Log("Set", [obj |-> o, name |-> nm, type |-> ty, vals |-> Vals(k, c)], [ret |-> 0])
-            ELSE /\ Log("Set", [obj |-> o, name |-> nm, type |-> ty, vals |-> Vals(k, c)], [ret |-> FAIL])
-                 /\ UNCHANGED attrs
-    /\ wc' = wc + 1 /\ UNCHANGED st
+    /\ st = "rw" /\ o \in Objs
+    /\ LET i == IndexOf(o, nm)  new == [name |-> nm, type |-> ty, count |-> c, k |-> k]
+           args == [obj |-> o, name |-> nm, type |-> ty, count |-> c, k |-> k] IN
+       IF TooBig(ty, c)
+       THEN /\ Log("Set", args, [ret |-> FAIL]) /\ UNCHANGED <<attrs, svars>>
+       ELSE IF i = 0
+       THEN /\ Len(attrs[Key(o)]) < MaxAttrs
+            /\ attrs' = [attrs EXCEPT ![Key(o)] = Append(@, new)]
+            /\ TouchCv(o)
+            /\ Log("Set", args, [ret |-> 0])
+       ELSE IF MayReplace(o, attrs[Key(o)][i], ty, c)
+            THEN /\ attrs' = [attrs EXCEPT ![Key(o)][i] = new]
+                 /\ Log("Set", args, [ret |-> 0]) /\ UNCHANGED svars
+            ELSE /\ Log("Set", args, [ret |-> FAIL])
+                 /\ UNCHANGED <<attrs, svars>>
+    /\ wc' = wc + 1 /\ UNCHANGED <<st, dimOf, dname, scale, nadd>>
 
 \* SDfindattr / GRfindattr / VSfindattr / Vfindattr
 Find(o, nm) ==
-    /\ st = "open" /\ o \in Objs
+    /\ st \in {"rw", "ro"} /\ o \in Objs
+    \* (asking a dimension WITHOUT coordinate variable creates one for the rest of the session only -- it is not
+    \*  written unless something else changes the file; such queries are not generated)
+    /\ (o \in DimSlots) => HasCv(dimOf[o])
+    /\ UNCHANGED svars
     /\ Log("Find", [obj |-> o, name |-> nm], [index |-> IndexOf(o, nm) - 1])
-    /\ UNCHANGED <<st, attrs, wc>>
+    /\ UNCHANGED <<st, attrs, dimOf, dname, scale, nadd, wc>>
 
-\* number of attributes + for every index: info (name, type, count) and values
+\* number of attributes and, for every index, name, type, count and value
 Dump(o) ==
-    /\ st = "open" /\ o \in Objs
-    /\ Log("Dump", [obj |-> o], [n |-> Len(attrs[o]), attrs |-> attrs[o]])
-    /\ UNCHANGED <<st, attrs, wc>>
+    /\ st \in {"rw", "ro"} /\ o \in Objs
+    /\ Log("Dump", [obj |-> o], [n |-> Len(attrs[Key(o)]), attrs |-> attrs[Key(o)]])
+    /\ UNCHANGED <<st, attrs, dimOf, dname, scale, svars, nadd, wc>>
 
-\* ---- predefined SD metadata on a dataset: each is an attribute with a fixed name ----
-\* SDsetrange(max, min): attribute "valid_range" of the dataset's type (int16), count 2 = <<min, max>>
+\* ---- predefined dataset metadata: each is one or more attributes with fixed names ----
+Upd(as, nm, ty, c, k) == LET i == IndexIn(as, nm)  new == [name |-> nm, type |-> ty, count |-> c, k |-> k] IN
+                         IF i = 0 THEN Append(as, new) ELSE [as EXCEPT ![i] = new]
+NewNames(as, nms) == Cardinality({n \in nms : IndexIn(as, n) = 0})
+Kx(k, j) == (k + j) % 16     \* (the driver recovers seeds 0..15)
+
+\* SDsetrange(max, min): "valid_range", the dataset's type, <<min, max>>
 SetRange(o, k) ==
-    /\ st = "open" /\ o \in Objs \cap {"sds1", "sds2"}
-    /\ LET i == IndexOf(o, "valid_range")  new == [name |-> "valid_range", type |-> "i16", count |-> 2, vals |-> <<ValK(k, 1), ValK(k, 1) + 5>>] IN
-       /\ (i = 0) => Len(attrs[o]) < MaxAttrs
-       /\ attrs' = [attrs EXCEPT ![o] = IF i = 0 THEN Append(@, new) ELSE [@ EXCEPT ![i] = new]]
-       /\ Log("SetRange", [obj |-> o, min |-> ValK(k, 1), max |-> ValK(k, 1) + 5], [ret |-> 0])
-    /\ wc' = wc + 1 /\ UNCHANGED st
+    /\ st = "rw" /\ o \in Objs \cap Sds
+    /\ Len(attrs[o]) + NewNames(attrs[o], {"valid_range"}) <= MaxAttrs
+    /\ attrs' = [attrs EXCEPT ![o] = Upd(@, "valid_range", "i16", 2, k)]
+    /\ Log("SetRange", [obj |-> o, k |-> k], [ret |-> 0])
+    /\ wc' = wc + 1 /\ UNCHANGED <<st, dimOf, dname, scale, svars, nadd>>
 GetRange(o) ==
-    /\ st = "open" /\ o \in Objs \cap {"sds1", "sds2"}
+    /\ st \in {"rw", "ro"} /\ o \in Objs \cap Sds
     /\ LET i == IndexOf(o, "valid_range") IN
-       Log("GetRange", [obj |-> o], IF i = 0 THEN [ret |-> FAIL] ELSE [ret |-> 0, min |-> attrs[o][i].vals[1], max |-> attrs[o][i].vals[2]])
-    /\ UNCHANGED <<st, attrs, wc>>
-\* SDsetdatastrs(label, unit, NULL, NULL): attributes "long_name" and "units" (char, length of the string)
+       /\ i # 0 => (attrs[o][i].type = "i16" /\ attrs[o][i].count = 2)      \* (the getter copies two values of the dataset's type)
+       /\ Log("GetRange", [obj |-> o], IF i = 0 THEN [ret |-> FAIL] ELSE [ret |-> 0, k |-> attrs[o][i].k])
+    /\ UNCHANGED <<st, attrs, dimOf, dname, scale, svars, nadd, wc>>
+\* SDsetfillvalue: "_FillValue", the dataset's type, one value
+SetFill(o, k) ==
+    /\ st = "rw" /\ o \in Objs \cap Sds
+    /\ Len(attrs[o]) + NewNames(attrs[o], {"_FillValue"}) <= MaxAttrs
+    /\ attrs' = [attrs EXCEPT ![o] = Upd(@, "_FillValue", "i16", 1, k)]
+    /\ Log("SetFill", [obj |-> o, k |-> k], [ret |-> 0])
+    /\ wc' = wc + 1 /\ UNCHANGED <<st, dimOf, dname, scale, svars, nadd>>
+GetFill(o) ==
+    /\ st \in {"rw", "ro"} /\ o \in Objs \cap Sds
+    /\ LET i == IndexOf(o, "_FillValue") IN
+       /\ i # 0 => (attrs[o][i].type = "i16" /\ attrs[o][i].count = 1)
+       /\ Log("GetFill", [obj |-> o], IF i = 0 THEN [ret |-> FAIL] ELSE [ret |-> 0, k |-> attrs[o][i].k])
+    /\ UNCHANGED <<st, attrs, dimOf, dname, scale, svars, nadd, wc>>
+\* SDsetdatastrs(label, unit, NULL, NULL): "long_name" (3 chars) and "units" (2 chars)
 SetStrs(o, k) ==
-    /\ st = "open" /\ o \in Objs \cap {"sds1", "sds2"}
-    /\ LET upd(as, nm, v) == LET i == IF \E j \in 1..Len(as) : as[j].name = nm THEN CHOOSE j \in 1..Len(as) : as[j].name = nm ELSE 0
-                                 new == [name |-> nm, type |-> "c8", count |-> Len(v), vals |-> v] IN
-                             IF i = 0 THEN Append(as, new) ELSE [as EXCEPT ![i] = new]
-           lab == Vals(k, 3)  unit == Vals(k + 1, 2) IN
-       /\ Len(attrs[o]) + 2 <= MaxAttrs
-       /\ attrs' = [attrs EXCEPT ![o] = upd(upd(@, "long_name", lab), "units", unit)]
-       /\ Log("SetStrs", [obj |-> o, label |-> lab, unit |-> unit], [ret |-> 0])
-    /\ wc' = wc + 1 /\ UNCHANGED st
+    /\ st = "rw" /\ o \in Objs \cap Sds
+    /\ Len(attrs[o]) + NewNames(attrs[o], {"long_name", "units"}) <= MaxAttrs
+    /\ attrs' = [attrs EXCEPT ![o] = Upd(Upd(@, "long_name", "c8", 3, k), "units", "c8", 2, Kx(k, 1))]
+    /\ Log("SetStrs", [obj |-> o, k |-> k], [ret |-> 0])
+    /\ wc' = wc + 1 /\ UNCHANGED <<st, dimOf, dname, scale, svars, nadd>>
+StrOf(as, nm) == LET i == IndexIn(as, nm) IN IF i = 0 THEN -2 ELSE IF as[i].type = "c8" THEN as[i].k ELSE -3
 GetStrs(o) ==
-    /\ st = "open" /\ o \in Objs \cap {"sds1", "sds2"}
-    /\ LET i == IndexOf(o, "long_name")  j == IndexOf(o, "units") IN
-       Log("GetStrs", [obj |-> o], [label |-> IF i = 0 THEN <<>> ELSE attrs[o][i].vals, unit |-> IF j = 0 THEN <<>> ELSE attrs[o][j].vals])
-    /\ UNCHANGED <<st, attrs, wc>>
+    /\ st \in {"rw", "ro"} /\ o \in Objs \cap Sds
+    \* (the getters copy the attribute's bytes as text: only judged while these are character attributes
+    \*  of the lengths the setter stores)
+    /\ \A nm \in {"long_name", "units"} : LET i == IndexOf(o, nm) IN i # 0 => (attrs[o][i].type = "c8" /\ attrs[o][i].count = IF nm = "units" THEN 2 ELSE 3)
+    /\ Log("GetStrs", [obj |-> o], [label |-> StrOf(attrs[o], "long_name"), unit |-> StrOf(attrs[o], "units")])
+    /\ UNCHANGED <<st, attrs, dimOf, dname, scale, svars, nadd, wc>>
+\* SDsetcal: scale_factor, scale_factor_err, add_offset, add_offset_err (float64), calibrated_nt (int32)
+CalNames == <<"scale_factor", "scale_factor_err", "add_offset", "add_offset_err", "calibrated_nt">>
+SetCal(o, k) ==
+    /\ st = "rw" /\ o \in Objs \cap Sds
+    /\ Len(attrs[o]) + NewNames(attrs[o], {CalNames[j] : j \in 1..5}) <= MaxAttrs
+    /\ attrs' = [attrs EXCEPT ![o] = Upd(Upd(Upd(Upd(Upd(@, CalNames[1], "f64", 1, k), CalNames[2], "f64", 1, Kx(k, 1)),
+                                                 CalNames[3], "f64", 1, Kx(k, 2)), CalNames[4], "f64", 1, Kx(k, 3)), CalNames[5], "i32", 1, Kx(k, 4))]
+    /\ Log("SetCal", [obj |-> o, k |-> k], [ret |-> 0])
+    /\ wc' = wc + 1 /\ UNCHANGED <<st, dimOf, dname, scale, svars, nadd>>
+GetCal(o) ==
+    /\ st \in {"rw", "ro"} /\ o \in Objs \cap Sds
+    /\ \A j \in 1..5 : LET i == IndexOf(o, CalNames[j]) IN i # 0 => (attrs[o][i].type = (IF j = 5 THEN "i32" ELSE "f64") /\ attrs[o][i].count = 1)
+    /\ Log("GetCal", [obj |-> o],
+           IF \E j \in 1..5 : IndexOf(o, CalNames[j]) = 0 THEN [ret |-> FAIL]
+           ELSE [ret |-> 0, ks |-> [j \in 1..5 |-> attrs[o][IndexOf(o, CalNames[j])].k]])
+    /\ UNCHANGED <<st, attrs, dimOf, dname, scale, svars, nadd, wc>>
 
-\* close everything and reopen (mode: read-only or read-write)
+\* ---- dimensions ----
+\* SDsetdimname (only while the dimension has no coordinate variable: its attributes and scale are
+\* found by name)
+SetDimName(s, nm) ==
+    /\ st = "rw" /\ s \in Objs \cap DimSlots
+    /\ ~HasCv(dimOf[s])
+    /\ LET d == dimOf[s]
+           others == {e \in {dimOf[x] : x \in DimSlots} : e # d /\ dname[e] = nm} IN
+       IF others = {}
+       THEN /\ dname' = [dname EXCEPT ![d] = nm]
+            /\ Log("SetDimName", [obj |-> s, name |-> nm], [ret |-> 0]) /\ UNCHANGED dimOf
+       ELSE LET e == CHOOSE x \in others : TRUE IN
+            IF DimSize[e] = DimSize[d]
+            THEN /\ dimOf' = [dimOf EXCEPT ![s] = e]                     \* the slot now shares dimension e
+                 /\ Log("SetDimName", [obj |-> s, name |-> nm], [ret |-> 0]) /\ UNCHANGED dname
+            ELSE /\ Log("SetDimName", [obj |-> s, name |-> nm], [ret |-> FAIL]) /\ UNCHANGED <<dimOf, dname>>
+    /\ UNCHANGED <<st, attrs, scale, svars, nadd, wc>>
+\* SDdiminfo name and size
+DimInfo(s) ==
+    /\ st \in {"rw", "ro"} /\ s \in Objs \cap DimSlots
+    /\ Log("DimInfo", [obj |-> s], [name |-> dname[dimOf[s]], size |-> DimSize[s], n |-> Len(attrs[dimOf[s]])])
+    /\ UNCHANGED <<st, attrs, dimOf, dname, scale, svars, nadd, wc>>
+\* SDsetdimscale(count = the dimension's size)
+\* (the stored values of a fixed-size dimension occupy an element of fixed length: re-setting the scale
+\*  with a WIDER type is refused and leaves the stored scale as it was)
+SetDimScale(s, ty, k) ==
+    /\ st = "rw" /\ s \in Objs \cap DimSlots
+    /\ IF scale[dimOf[s]] # NoScale /\ SizeOf[ty] > SizeOf[scale[dimOf[s]].type]
+       THEN /\ Log("SetDimScale", [obj |-> s, type |-> ty, k |-> k], [ret |-> FAIL])
+            /\ UNCHANGED <<scale, svars>>
+       ELSE /\ scale' = [scale EXCEPT ![dimOf[s]] = [type |-> ty, k |-> k]]
+            /\ svars' = WithCv(dimOf[s])
+            /\ Log("SetDimScale", [obj |-> s, type |-> ty, k |-> k], [ret |-> 0])
+    /\ wc' = wc + 1 /\ UNCHANGED <<st, attrs, dimOf, dname, nadd>>
+\* SDdiminfo type + SDgetdimscale (asked only once a scale has been stored)
+GetDimScale(s) ==
+    /\ st \in {"rw", "ro"} /\ s \in Objs \cap DimSlots
+    /\ scale[dimOf[s]] # NoScale
+    /\ Log("GetDimScale", [obj |-> s], [ret |-> 0, type |-> scale[dimOf[s]].type, k |-> scale[dimOf[s]].k])
+    /\ UNCHANGED <<st, attrs, dimOf, dname, scale, svars, nadd, wc>>
+\* SDsetdimstrs(label, unit, NULL)
+SetDimStrs(s, k) ==
+    /\ st = "rw" /\ s \in Objs \cap DimSlots
+    /\ LET d == dimOf[s] IN
+       /\ Len(attrs[d]) + NewNames(attrs[d], {"long_name", "units"}) <= MaxAttrs
+       /\ attrs' = [attrs EXCEPT ![d] = Upd(Upd(@, "long_name", "c8", 3, k), "units", "c8", 2, Kx(k, 1))]
+       /\ svars' = WithCv(d)
+    /\ Log("SetDimStrs", [obj |-> s, k |-> k], [ret |-> 0])
+    /\ wc' = wc + 1 /\ UNCHANGED <<st, dimOf, dname, scale, nadd>>
+GetDimStrs(s) ==
+    /\ st \in {"rw", "ro"} /\ s \in Objs \cap DimSlots
+    /\ LET d == dimOf[s] IN
+       /\ HasCv(d)
+       /\ \A nm \in {"long_name", "units"} : LET i == IndexIn(attrs[d], nm) IN i # 0 => (attrs[d][i].type = "c8" /\ attrs[d][i].count = IF nm = "units" THEN 2 ELSE 3)
+       /\ Log("GetDimStrs", [obj |-> s], [label |-> StrOf(attrs[d], "long_name"), unit |-> StrOf(attrs[d], "units")])
+    /\ UNCHANGED <<st, attrs, dimOf, dname, scale, svars, nadd, wc>>
+
+\* ---- datasets of the file: index <-> name <-> reference ----
+\* a new dataset is created (later sessions rewrite all metadata at close)
+AddDs ==
+    /\ st = "rw" /\ nadd < MaxAdd
+    /\ nadd' = nadd + 1
+    /\ svars' = Append(svars, [name |-> IF nadd = 0 THEN "e1" ELSE IF nadd = 1 THEN "e2" ELSE "e3", coord |-> FALSE])
+    /\ Log("AddDs", [n |-> nadd + 1], [ret |-> 0])
+    /\ UNCHANGED <<st, attrs, dimOf, dname, scale, wc>>
+\* SDfileinfo; per index SDselect/SDgetinfo/SDiscoordvar; SDnametoindex, SDidtoref, SDreftoindex must be
+\* mutually consistent (the driver reports consistent = TRUE iff name -> first index with that name,
+\* index -> ref -> index is the identity and refs are pairwise distinct)
+Lookups ==
+    /\ st \in {"rw", "ro"}
+    /\ Log("Lookups", [a |-> 0], [vars |-> svars, consistent |-> TRUE])
+    /\ UNCHANGED <<st, attrs, dimOf, dname, scale, svars, nadd, wc>>
+
+\* close everything and reopen for reading (FALSE) or writing (TRUE)
 Reopen(rw) ==
-    /\ st = "open"
+    /\ st \in {"rw", "ro"}
+    /\ st' = IF rw THEN "rw" ELSE "ro"
     /\ Log("Reopen", [rw |-> rw], [ret |-> 0])
-    /\ UNCHANGED <<st, attrs, wc>>
+    /\ UNCHANGED <<attrs, dimOf, dname, scale, svars, nadd, wc>>
 
+K == (wc + 1) % DataMod
 Next == \/ Setup
-        \/ \E o \in Objs, nm \in Names, ty \in Types, c \in Counts : Set(o, nm, ty, c, (wc + 1) % DataMod)
+        \/ \E o \in Objs, nm \in Names, ty \in Types, c \in Counts : Set(o, nm, ty, c, K)
         \/ \E o \in Objs, nm \in Names \cup {"valid_range", "long_name", "nosuch"} : Find(o, nm)
-        \/ \E o \in Objs : Dump(o) \/ SetRange(o, (wc + 1) % DataMod) \/ GetRange(o) \/ SetStrs(o, (wc + 1) % DataMod) \/ GetStrs(o)
+        \/ \E o \in Objs : \/ Dump(o) \/ SetRange(o, K) \/ GetRange(o) \/ SetFill(o, K) \/ GetFill(o)
+                           \/ SetStrs(o, K) \/ GetStrs(o) \/ SetCal(o, K) \/ GetCal(o)
+                           \/ DimInfo(o) \/ GetDimScale(o) \/ SetDimStrs(o, K) \/ GetDimStrs(o)
+        \/ \E o \in Objs, nm \in DimNames : SetDimName(o, nm)
+        \/ \E o \in Objs, ty \in ScaleTypes : SetDimScale(o, ty, K)
+        \/ AddDs \/ Lookups
         \/ \E rw \in BOOLEAN : Reopen(rw)
 Spec == Init /\ [][Next]_vars
 
 ---------------------------------------------------------------------------
-\* names are unique per object; re-setting keeps the index and every other attribute
-UniqueNames == \A o \in Objs : \A i, j \in 1..Len(attrs[o]) : i # j => attrs[o][i].name # attrs[o][j].name
-SetKeepsOthers == [][(hist' # hist /\ hist' # <<>> /\ hist'[Len(hist')].op = "Set") =>
-                       LET e == hist'[Len(hist')] IN
-                         /\ \A o \in Objs \ {e.args.obj} : attrs'[o] = attrs[o]
-                         /\ \A i \in 1..Len(attrs[e.args.obj]) : attrs[e.args.obj][i].name # e.args.name => attrs'[e.args.obj][i] = attrs[e.args.obj][i]
-                         /\ (e.out.ret = FAIL) => attrs' = attrs]_vars
+\* names are unique per attribute list
+UniqueNames == \A o \in DOMAIN attrs : \A i, j \in 1..Len(attrs[o]) : i # j => attrs[o][i].name # attrs[o][j].name
+\* the listing of datasets has pairwise distinct names (so name -> index is a bijection in generated programs)
+VarNamesDistinct == \A i, j \in 1..Len(svars) : i # j => svars[i].name # svars[j].name
+\* a step changes at most one attribute list, never shortens or reorders one, and a refused call changes nothing
+ListStable == [][st' # "init" => \A o \in DOMAIN attrs :
+                   /\ Len(attrs'[o]) >= Len(attrs[o])
+                   /\ \A i \in 1..Len(attrs[o]) : attrs'[o][i].name = attrs[o][i].name]_vars
+RefusedChangesNothing == [][(hist' # hist /\ hist' # <<>> /\ "ret" \in DOMAIN hist'[Len(hist')].out /\ hist'[Len(hist')].out.ret = FAIL)
+                              => (attrs' = attrs /\ dimOf' = dimOf /\ dname' = dname /\ scale' = scale)]_vars
+\* nothing but a setter changes a value; closing and reopening changes nothing
+OnlySettersChange == [][(hist' # hist /\ hist' # <<>> /\ hist'[Len(hist')].op \notin {"Set", "SetRange", "SetFill", "SetStrs", "SetCal", "SetDimStrs"})
+                              => attrs' = attrs]_vars
 Bound == Len(hist) < MaxOps
 =============================================================================
